@@ -34,7 +34,7 @@ def isLeafAbstract : Decl → Bool
   | .abstract => true
   | _ => false
 
-def Params.isNil : Params → Bool
+def psNil : Params → Bool
   | .nil => true
   | _ => false
 
@@ -46,7 +46,7 @@ def wf (form : Form) : Decl → Bool
   | .paren d => wf form d && !isLeafAbstract d
   | .bitfield _ => false
   | .arr d => wf form d && !isPtr d
-  | .fn d ps ell => wf form d && !isPtr d && wfPs ps && (!ell || !ps.isNil)
+  | .fn d ps ell => wf form d && !isPtr d && wfPs ps && (!ell || !psNil ps)
 def wfPs : Params → Bool
   | .nil => true
   | .cons _ d r => (wf .concrete d || wf .abstract d) && wfPs r
